@@ -479,7 +479,9 @@ class MarkdownNormalizer(Renderer):
         # Don't add prefix to empty lines to avoid trailing whitespace.
         # Use rstrip() to preserve structural prefixes like ">" for blockquotes.
         empty_line_prefix = self._second_prefix.rstrip()
-        for line in code_content.splitlines():
+        # Only "\n" ends a line of code: splitlines() would also break at form feeds, vertical
+        # tabs, U+2028 and other separators that are just characters inside a code block.
+        for line in code_content.split("\n") if code_content else []:
             if line:
                 lines.append(f"{self._second_prefix}{line}")
             else:
